@@ -8,7 +8,7 @@ use crate::{for_both, hx, Ctx, Tier};
 use blsful::*;
 use serde_json::json;
 
-pub const RULE: &str = "n in {2,3,8,64} (quick) / every n in 2..=64 (thorough) x {ProofOfPossession, Basic} x 2 groups x messages from the length classes: n fresh keys sign one message; MultiSignature::from_signatures must equal the reference group sum (bytes) and MultiPublicKey::from_public_keys the key sum; (msig, mpk, msg) must verify (library and reference); omission of each signer, addition of one, replacement of each (every position for n<=16, 8 sampled above) and another message must fail, each also decided by the reference under the summed key; the accumulated key built from the signer list in another order must still verify. Accumulation refusal: all 3^n scheme assignments for n in {2,3}, MessageAugmentation at every position for n in {4,8}, sizes 0 and 1. Distinct by (suite, scheme, variant, mpk, msig, msg); non-trivial = pairing equation decides (points decode, none is the identity).";
+pub const RULE: &str = "n in {2,3,8,64} (quick) / every n in 2..=64 (thorough) x {ProofOfPossession, Basic} x 2 groups x messages from the length classes: n fresh keys sign one message; MultiSignature::from_signatures must equal the reference group sum (bytes), also when one part occurs twice (front / middle / end) and MultiPublicKey::from_public_keys the key sum; (msig, mpk, msg) must verify (library and reference); omission of each signer, addition of one, replacement of each (every position for n<=16, 8 sampled above) and another message must fail, each also decided by the reference under the summed key; the accumulated key built from the signer list in another order must still verify. Accumulation refusal: all 3^n scheme assignments for n in {2,3}, MessageAugmentation at every position for n in {4,8}, sizes 0 and 1. Distinct by (suite, scheme, variant, mpk, msig, msg); non-trivial = pairing equation decides (points decode, none is the identity).";
 
 pub fn run(ctx: &mut Ctx) {
     for_both!(run_suite, ctx);
@@ -96,6 +96,25 @@ fn one_set<C: Suite>(ctx: &mut Ctx, g: u64, scheme: Scheme, cnt: usize, idx: usi
     ctx.expect(enc_pt(&via_from.0) == rpk.enc(), &format!("C07/mpk-from-slice-not-sum/{n}/{sn}"), || json!({"n":cnt}));
     ctx.hit(&format!("{n}/{sn}/sum"), &[&rsum.enc(), &rpk.enc()]);
 
+    // a part that occurs twice (same signer contributes its signature twice), adjacent and after
+    // at least one other part, and in first position: still the PLAIN group sum, verifying under
+    // the key list with that key twice
+    for (vn, at) in [("duplicate part at the end", cnt - 1), ("duplicate part at the front", 0usize), ("duplicate part in the middle", cnt / 2)] {
+        let mut s2 = sigs.clone();
+        s2.insert(at + 1, sigs[at]);
+        let mut p2 = pks.clone();
+        p2.insert(at + 1, pks[at]);
+        if let Some(Ok(m2)) = ctx.guard("MultiSignature::from_signatures", || json!({"n":cnt + 1,"variant":vn}), || MultiSignature::<C>::from_signatures(&s2)) {
+            let want = rsum.add(rsig_of::<C>(&sigs[at]));
+            ctx.expect(enc_pt(m2.as_raw_value()) == want.enc(), &format!("C07/msig-not-sum/{n}/{sn}"), || {
+                json!({"what":"multi-signature with a repeated part is not the plain group sum of its parts","n":cnt + 1,"variant":vn,"lib":hex::encode(enc_pt(m2.as_raw_value())),"ref":hex::encode(want.enc())})
+            });
+            decide::<C>(ctx, &format!("{n}/{sn}/honest"), scheme, vn, true, &m2, MultiPublicKey::from_public_keys(&p2), &msg);
+            // and NOT under the key list without the repetition
+            decide::<C>(ctx, &format!("{n}/{sn}/omitted"), scheme, &format!("{vn} / key list without the repetition"), false, &m2, mpk, &msg);
+            ctx.hit(&format!("{n}/{sn}/sum"), &[vn.as_bytes(), &want.enc()]);
+        }
+    }
     decide::<C>(ctx, &format!("{n}/{sn}/honest"), scheme, "honest", true, &ms, mpk, &msg);
     let mut rp = pks.clone();
     rp.reverse();
